@@ -19,6 +19,11 @@ CLAIMED = {
    note="Hand model Tape.v/Jacobian.v; rounding not modelled (test data dyadic, results exact); the multi-lane zero shortcut with non-finite multipliers is outside the ring model; negative Matrix strides as target outside the claim.",
    technique="Coq proof (adjoint identity by induction over the tape; permutation-of-canonical-writes for each driver) + differential correspondence of extracted model vs Stack",
    design="DESIGN.md §4 C02"),
+ "C04": dict(
+   text="Machine-checked proofs (Coq, axiom-free) about the model of passive array statements: every address of a view lies in the range computed by data_range (any rank, any stride signs); a negative alias test is sound (the expression - leaves, scalars, element-wise operators, spread, outer_product - reads nothing inside the target's window); hence Array::operator= (alias test, temporary copy, element-by-element loop) equals 'evaluate the whole right-hand side on the initial memory, then store' for every target view and well-shaped right-hand side without noalias; the same for where(); compound assignment is proved under non-overlap (partial) and its failure for shifted overlaps is a machine-checked refutation (Refuted_C04.v) reported as KNOWN-FINDING. Tie: ~1800 generated C++ statements per run (systematic boundary family around the alias test + random views/expressions/overlaps, ASan) compared exactly with the extracted model and with an independent nested-list specification.",
+   note="Reductions, dot_product and count are checked by correspondence and specification only (no theorem beyond the fold definition); integer-vector-indexed targets, find, minloc/maxloc and the column-major default order are not yet in the generator; where-masks reading shifted target elements are outside the claim (the mask is not the right-hand side). Defects repaired: scalar fill of negative-stride views (7d24311), alias blindness of spread/outer_product (03b42f5).",
+   technique="Coq proof (footprint lemma, alias-test soundness by induction on expressions, loop-vs-specification by induction on the index list) + generated-C++ differential run + specification oracle",
+   design="DESIGN.md §4 C04"),
  "C06": dict(
    text="Machine-checked proofs (Coq, axiom-free) about the (base, extents, strides) model of Array views: slicing with any mix of scalar indices, ranges, positive/negative strides and `end` arithmetic satisfies addr(slice v l) j = addr v (denoted index) for all j; the extent formula with C++ truncating division is exactly the number of terms of the arithmetic progression for both stride signs; rank = number of range arguments; and for every finite composition of operator(), operator[], T, permute, diag_vector(k), submatrix_on_diagonal, reshape and soft_link with admissible arguments (any rank): address identity with the composed index map, denoted indices inside the parent's extents, distinct indices denote distinct parent cells, all cells inside the parent's memory; the bounds-checked slicing raises exactly when a scalar index or range end-point is outside 0..n-1. Tie: the extracted model and an independent nested-list denotation are compared with the real Array class (default and ADEPT_BOUNDS_CHECKING builds) on exhaustive small slices and random compositions, including write-through of every element.",
    note="Hand model View.v; harness covers ranks 1-4 (theorems cover any rank); index vectors (IndexedArray) are covered under C04/C03, not here; stride 0 and ranges pointing away from `end` are inadmissible arguments and excluded.",
